@@ -327,7 +327,14 @@ def step (w : W) (o : Op) : W × String :=
       let f := flds (o.str "maxage"); some (intOf f[0]!, intOf f[1]!)
     let r := Locking.beginBlock w.lock (o.int "height") (o.int "time") votes maxAge evs
     match r with
-    | .ok lk => ({ w with lock := lk }, "=> ok")
+    | .ok lk =>
+      if o.str "obs" == "1" then
+        -- who is punished by this hook: validators whose status becomes downgrade / tombstoned
+        let pun := lk.validators.filterMap (fun (a, v) =>
+          let old := (w.lock.validators.find? (·.1 == a)).map (·.2.status)
+          if old != some v.status && (v.status == .downgrade || v.status == .tombstoned) then some s!"{toHex a}|{statusName v.status}" else none)
+        ({ w with lock := lk }, "=> ok pun=" ++ lst (sortStr pun))
+      else ({ w with lock := lk }, "=> ok")
     | _ => (w, "=> " ++ res r)
   | "hook.lock.end" =>
     let r := Locking.endBlocker w.lock
